@@ -53,7 +53,7 @@ pub fn dispatch(ctx: &mut Ctx, op: &str, f: &[&str]) -> Option<String> {
                 let m = ctx.machine.as_mut().unwrap();
                 matches!(
                     catch_unwind(AssertUnwindSafe(|| {
-                        m.run_query("catch('$sv_tlm', _, fail).")
+                        m.run_query("'$sv_tlm'.")
                             .next()
                             .map_or(false, |a| matches!(a, Ok(scryer_prolog::LeafAnswer::True)))
                     })),
